@@ -6,7 +6,7 @@
 From Coq Require Import List String ZArith NArith Bool.
 Import ListNotations.
 From DV Require Import Model.Tree Model.Tables Model.Skeleton Model.Clone Model.Restore Model.SliceHeap
-     Proofs.CloneProofs Proofs.RestoreProofs Proofs.DupProofs
+     Proofs.CloneProofs Proofs.CloneRender Proofs.RestoreProofs Proofs.DupProofs
      Gen.Universe Gen.CloneTbl Gen.RestTbl.
 Local Open Scope string_scope.
 Local Open Scope list_scope.
@@ -50,6 +50,23 @@ Proof.
   apply clone_exact.
   pose proof C06_clone_table_complete_alias_free as H.
   apply andb_true_iff in H. destruct H as [H _]. apply andb_true_iff in H. destruct H as [H _]. exact H.
+Qed.
+
+(* ... and it prints as the original does: for every tree, with or without import management and
+   whatever names the import manager chose, the restorer performs exactly the same actions
+   (positions, line breaks, comments, literals) on the clone as on the original, node identities
+   aside (a clone's nodes are new: C06_shared_node_panics below is about identities).  Table
+   condition: the restorer never restores an Init field as a node of its own, also not through
+   a longer path. *)
+Theorem C06_restorer_reads_no_init_node : tbl_safe rest_tbl = true.
+Proof. vm_compute. reflexivity. Qed.
+
+Theorem C06_clone_prints_as_the_original :
+  forall t, conforms_full universe dec_universe t = true -> spacing_conforms universe t = true ->
+  forall managed pkg, flatten rest_tbl managed pkg (clone clone_tbl t) = flatten rest_tbl managed pkg t.
+Proof.
+  intros t Hc Hs managed pkg. rewrite (C06_clone_is_complete_copy t Hc Hs).
+  apply normalize_renders_the_same. exact C06_restorer_reads_no_init_node.
 Qed.
 
 (* object and scope links are dropped: no reference survives in the clone *)
@@ -134,3 +151,4 @@ Print Assumptions C06_all_origins_fresh.
 Print Assumptions C06_shared_node_panics.
 Print Assumptions C06_distinct_nodes_do_not_panic.
 Print Assumptions C06_every_node_entered.
+Print Assumptions C06_clone_prints_as_the_original.
